@@ -153,12 +153,26 @@ def _is_within(node, root):
     return False
 
 
+def _pos(node):
+    """Position of a node in the (normalised) tree: its pre-order number when the model
+    assigned one - source lines no longer say which statement comes first once arms were
+    swapped or code was spliced in - else its line."""
+    o = getattr(node, '_ord', None)
+    return o if o is not None else node.lineno
+
+
 def _ln(stmt):
+    o = getattr(stmt, '_ord', None)
+    if o is not None:
+        return o
     ln = getattr(stmt, 'lineno', None)
     return ln if ln is not None else stmt.target.lineno
 
 
 def _end(stmt):
+    o = getattr(stmt, '_ord_end', None)
+    if o is not None:
+        return o
     ln = getattr(stmt, 'end_lineno', None)
     return ln if ln is not None else stmt.iter.end_lineno
 
@@ -178,7 +192,7 @@ def reaching(funcnode, name, at):
     killer = None
     for kind, v, stmt in vals:
         if getattr(stmt, '_parent', None) is funcnode and not kind.startswith('iter') and \
-                _end(stmt) < at.lineno and (killer is None or _ln(stmt) > _ln(killer)):
+                _end(stmt) < _pos(at) and (killer is None or _ln(stmt) > _ln(killer)):
             killer = stmt
     out = []
     for kind, v, stmt in vals:
@@ -198,12 +212,12 @@ def reaching(funcnode, name, at):
             if inside and not (x is owner and _is_within(at, stmt.iter)):
                 out.append((kind, v, stmt))
             continue
-        if _ln(stmt) <= at.lineno:
+        if _ln(stmt) <= _pos(at):
             if kind.startswith('iter') and any(l is stmt and part == 'iter'
                                                for l, part in at_loops):
                 continue
             # the statement that contains the read does not bind before it evaluates
-            if _ln(stmt) == at.lineno and any(x is at for x in ast.walk(stmt)) and \
+            if _ln(stmt) <= _pos(at) <= _end(stmt) and any(x is at for x in ast.walk(stmt)) and \
                     not kind.startswith('iter'):
                 continue
             out.append((kind, v, stmt))
